@@ -155,6 +155,25 @@ def all_well_ids(desc):
 # ---------------------------------------------------------------------------------------------
 # construction of the real objects
 # ---------------------------------------------------------------------------------------------
+def _limit(desc, key):
+    """The limit as the caller passes it: a Python number, or the numpy.float32 scalar of the same value."""
+    v = desc[key]
+    if desc.get("limits_as") == "float32":
+        v32 = np.float32(v)
+        assert float(v32) == float(v), "a description with single-precision limits holds representable values"
+        return v32
+    return v
+
+
+def _initial(desc, arr):
+    """The initial volumes as the caller passes them (float64, or a float32 array of the same values)."""
+    if desc.get("initial_as") == "float32":
+        a32 = np.asarray(arr, dtype=np.float32)
+        assert np.array_equal(a32.astype(float), np.asarray(arr, dtype=float)), "representable initial volumes"
+        return a32
+    return arr
+
+
 def build_labware(desc):
     import robotools
 
@@ -165,8 +184,8 @@ def build_labware(desc):
         if names is not None:
             kw["component_names"] = {well_id(0, int(k.split(",")[1])): v for k, v in names.items()}
         return robotools.Labware(
-            desc["name"], 1, desc["columns"], min_volume=desc["min_volume"], max_volume=desc["max_volume"],
-            initial_volumes=np.array(desc["initial"], dtype=float), virtual_rows=desc["virtual_rows"], **kw,
+            desc["name"], 1, desc["columns"], min_volume=_limit(desc, "min_volume"), max_volume=_limit(desc, "max_volume"),
+            initial_volumes=_initial(desc, np.array(desc["initial"], dtype=float)), virtual_rows=desc["virtual_rows"], **kw,
         )
     if desc["kind"] == "trough":
         kw = {}
@@ -176,9 +195,9 @@ def build_labware(desc):
             desc["name"],
             desc["virtual_rows"],
             desc["columns"],
-            min_volume=desc["min_volume"],
-            max_volume=desc["max_volume"],
-            initial_volumes=list(desc["initial"][0]),
+            min_volume=_limit(desc, "min_volume"),
+            max_volume=_limit(desc, "max_volume"),
+            initial_volumes=list(desc["initial"][0]) if desc.get("initial_as") != "float32" else _initial(desc, np.array(desc["initial"][0], dtype=float)),
             **kw,
         )
     kw = {}
@@ -196,9 +215,9 @@ def build_labware(desc):
         desc["name"],
         desc["rows"],
         desc["columns"],
-        min_volume=desc["min_volume"],
-        max_volume=desc["max_volume"],
-        initial_volumes=arr,
+        min_volume=_limit(desc, "min_volume"),
+        max_volume=_limit(desc, "max_volume"),
+        initial_volumes=_initial(desc, arr),
         **kw,
     )
     # the caller's own array, kept so that monitors can check that the labware does not alias it
